@@ -66,6 +66,7 @@ type world struct {
 	shortBlack map[string]bool
 	cidrBlack  bool
 	restarts   int
+	renames    int
 }
 
 func newWorld() (*world, error) {
@@ -222,6 +223,18 @@ func (w *world) step(a Action) (*fail, string) {
 		}
 		w.banned = map[string]bool{}
 		return w.invariants("restart")
+	case "rename":
+		// an administrator edits the client record (management API rename): it changes neither who
+		// holds the key nor whether the credentials have expired
+		id := w.ids[a.Client]
+		if c, err := w.srv.Cloud.GetClient(id); err == nil && c != nil {
+			w.renames++
+			c.Name = fmt.Sprintf("renamed-%d", w.renames)
+			if err := w.srv.Cloud.UpdateClient(c); err != nil {
+				vkit.Class("rename-refused")
+			}
+		}
+		return w.invariants("rename")
 	case "expire":
 		id := w.ids[a.Client]
 		if _, ok := w.secrets[id]; ok && !w.expired[id] {
@@ -540,7 +553,7 @@ func runCase(t vkit.TB, c Case) {
 }
 
 func genAction(t *rapid.T) Action {
-	kind := rapid.SampledFrom([]string{"first", "phase1", "phase1", "phase1", "phase2", "phase2", "phase2", "phase2", "phase2", "malformed", "ban", "blacklist", "expire", "ban-permanent", "blacklist-cidr", "blacklist-short", "sleep", "restart"}).Draw(t, "kind")
+	kind := rapid.SampledFrom([]string{"first", "phase1", "phase1", "phase1", "phase2", "phase2", "phase2", "phase2", "phase2", "malformed", "ban", "blacklist", "expire", "ban-permanent", "blacklist-cidr", "blacklist-short", "sleep", "restart", "rename"}).Draw(t, "kind")
 	a := Action{Kind: kind, Conn: rapid.IntRange(0, nConns-1).Draw(t, "conn")}
 	a.Type = rapid.SampledFrom([]string{"", "control", "control", "tunnel"}).Draw(t, "type")
 	switch kind {
@@ -556,6 +569,8 @@ func genAction(t *rapid.T) Action {
 		if rapid.IntRange(0, 1).Draw(t, "rare") != 0 {
 			a = Action{Kind: "phase1", Conn: a.Conn, Client: "B", Type: a.Type}
 		}
+	case "rename":
+		a.Client = rapid.SampledFrom([]string{"A", "B", "E", "E", "K"}).Draw(t, "client")
 	case "restart":
 		if rapid.IntRange(0, 1).Draw(t, "rare") != 0 {
 			a = Action{Kind: "phase2", Conn: a.Conn, Client: "A", Resp: "valid", Type: a.Type}
@@ -601,7 +616,7 @@ func TestEnumerated(t *testing.T) {
 		alpha = append(alpha, Action{Kind: "phase2", Conn: conn, Client: "A", Resp: "valid", Type: "tunnel"})
 		alpha = append(alpha, Action{Kind: "phase2", Conn: conn, Client: "K", Resp: "emptykey", Type: "control"})
 	}
-	alpha = append(alpha, Action{Kind: "ban", IP: 0}, Action{Kind: "expire", Client: "A"})
+	alpha = append(alpha, Action{Kind: "ban", IP: 0}, Action{Kind: "expire", Client: "A"}, Action{Kind: "rename", Client: "A"})
 	depth := vkit.Pick(3, 4)
 	total := 1
 	for i := 0; i < depth; i++ {
@@ -642,6 +657,12 @@ func TestReplay(t *testing.T) {
 		if key, detail, _ := runWSGate(t, g); key != "" {
 			vkit.Violation(t, key, detail, g)
 		}
+		return
+	}
+	var ac AddrCase
+	vkit.LoadReplay(path, &ac)
+	if ac.AddrForm != "" {
+		checkAddr(t, ac)
 		return
 	}
 	var c Case
